@@ -65,8 +65,8 @@ def run(ctx):
     progs = [{"config": rng.choice(D.CONFIGS), "seed": rng.randint(0, 10 ** 6), "schedule": D.random_schedule(rng, rng.choice([4, 8])), "where": "inline"}
              for _ in range(n)]
     validate(ctx, progs, "random seeds x configurations (plain / grid / continuous, population, system mix) x random perturbation schedules")
-    n = 16 if q else 120
-    progs = [{"config": (D.SPATIAL[(k // 2) % len(D.SPATIAL)] if k % 2 else rng.choice(D.CONFIGS)),
+    n = 24 if q else 120
+    progs = [{"config": (D.HASHCFG[(k // 2) % len(D.HASHCFG)] if k % 2 else rng.choice(D.CONFIGS)),
               "seed": rng.choice([rng.randint(0, 10 ** 6), "run-%d" % k, 0, 2.5]),
               "schedule": D.random_schedule(rng, 5), "where": "fresh",
               "hashseed": (("1", "12345", "random", "7") if k % 2 else ("0", "1", "12345", "random"))[(k // 2) % 4]} for k in range(n)]
